@@ -446,6 +446,19 @@ func (e *Engine) runPath(w *Worker, cfg *EntryCfg, fn *ssa.Function, dec []Decis
 					}
 				case abBudget:
 					res.Status = "budget"
+					if cfg.Total {
+						// a loop that makes no symbolic decision never reaches the
+						// unwinding bound: exhausting the step budget is the
+						// candidate for non-termination (replayed natively under a timeout)
+						where := ""
+						if p.cur != nil && p.cur.fn != nil {
+							where = p.cur.fn.String()
+						}
+						if p.recordViolation("unwind", "step budget exhausted (possible non-termination) in "+where, nil) {
+							n := len(res.Violations)
+							res.Violations[n-1].Where = where
+						}
+					}
 				case abStop:
 					res.Status = "stopped"
 				}
